@@ -10,6 +10,7 @@ Theorems that do not mention `Generated.tokTable` hold for *every* pattern list.
 -/
 import Emboss.Lemmas.TokFile
 import Emboss.Lemmas.TokTable
+import Emboss.Lemmas.TokBoundary
 import Emboss.Generated.TokTable
 namespace Emboss.Tok
 open Emboss.Regex Emboss.Generated
@@ -271,6 +272,39 @@ theorem C10_word_tokens (ln : Nat) (line : List Char) (segs : List Seg)
     have : t.sym = sym := by simpa using hb'
     rw [this]
     exact ⟨h1, h2, h3⟩
+
+/-- Every token of a real tokenization that begins with a word character is a *maximal*
+word run of its line: not preceded by a word character (no token of the table ends inside
+a run) and extending to the end of the run — so `C10_word_tokens` applies to it with
+`w = takeWhile isWordChar (line from its column)`. -/
+theorem C10_word_tokens_are_maximal_runs (ln : Nat) (line : List Char) (segs : List Seg)
+    (h : Covers tokTable.pats ln line 0 segs) (t : Token) (ht : t ∈ tokensOf segs)
+    (c : Char) (hc : t.text.head? = some c) (hw : isWordChar c = true) :
+    (t.sc = 1 ∨ ∃ a, line[t.sc - 2]? = some a ∧ isWordChar a = false) ∧
+    t.text = (line.drop (t.sc - 1)).takeWhile isWordChar ∧
+    WordRun ((line.drop (t.sc - 1)).takeWhile isWordChar) ((line.drop (t.sc - 1)).dropWhile isWordChar) := by
+  obtain ⟨i1, i2⟩ := covers_run_starts h none (by intro a b ha; cases ha) t ht c hc hw
+  have hrun : WordRun ((line.drop (t.sc - 1)).takeWhile isWordChar)
+      ((line.drop (t.sc - 1)).dropWhile isWordChar) := by
+    obtain ⟨_, _, _, h4, _, _, h7, _⟩ := h.token_facts t ht
+    simp only [Nat.sub_zero] at h7
+    refine ⟨?_, all_takeWhile _ _, fun b hb => head_dropWhile_not _ b hb⟩
+    generalize line.drop (t.sc - 1) = u at h7
+    cases u with
+    | nil => rw [h7] at h4; simp at h4
+    | cons x u' =>
+      have : t.ec - t.sc ≠ 0 := by
+        intro h0; rw [h0] at h7; simp at h7; exact h4 h7
+      rw [h7, show t.ec - t.sc = (t.ec - t.sc - 1) + 1 by omega, List.take_succ_cons] at hc
+      simp only [List.head?_cons, Option.some.injEq] at hc
+      subst hc
+      simp [hw]
+  refine ⟨?_, (cover_word_token h ht (List.takeWhile_append_dropWhile).symm hrun).1, hrun⟩
+  by_cases h1 : t.sc = 1
+  · exact .inl h1
+  · right
+    obtain ⟨a, ha, hwa⟩ := i2 (by omega)
+    exact ⟨a, by simpa using ha, hwa⟩
 
 theorem not_grouped_us (dig : Char → Bool) (hd : dig '_' = false) (a b : Nat) (t : List Char) :
     ¬ Grouped dig a b ('_' :: t) := by
